@@ -108,13 +108,13 @@ type vfFIPs struct {
 func (f *vfFIPs) Create(ctx context.Context, obj *v1alpha1.FloatingIP, opts metav1.CreateOptions) (*v1alpha1.FloatingIP, error) {
 	defer f.Store.after("create", obj.Name)
 	if err := f.Store.fault("create", obj.Name); err != nil {
-		return nil, err
+		return &v1alpha1.FloatingIP{}, err
 	}
 	f.Store.Mu.Lock()
 	_, ok := f.Store.Objs[obj.Name]
 	f.Store.Mu.Unlock()
 	if ok {
-		return nil, apierrors.NewAlreadyExists(vfGR, obj.Name)
+		return &v1alpha1.FloatingIP{}, apierrors.NewAlreadyExists(vfGR, obj.Name)
 	}
 	if f.Store.Observe != nil {
 		f.Store.Observe("create", nil, obj)
@@ -128,13 +128,13 @@ func (f *vfFIPs) Create(ctx context.Context, obj *v1alpha1.FloatingIP, opts meta
 func (f *vfFIPs) Update(ctx context.Context, obj *v1alpha1.FloatingIP, opts metav1.UpdateOptions) (*v1alpha1.FloatingIP, error) {
 	defer f.Store.after("update", obj.Name)
 	if err := f.Store.fault("update", obj.Name); err != nil {
-		return nil, err
+		return &v1alpha1.FloatingIP{}, err
 	}
 	f.Store.Mu.Lock()
 	old, ok := f.Store.Objs[obj.Name]
 	f.Store.Mu.Unlock()
 	if !ok {
-		return nil, apierrors.NewNotFound(vfGR, obj.Name)
+		return &v1alpha1.FloatingIP{}, apierrors.NewNotFound(vfGR, obj.Name)
 	}
 	if f.Store.Observe != nil {
 		f.Store.Observe("update", old, obj)
@@ -168,13 +168,13 @@ func (f *vfFIPs) Delete(ctx context.Context, name string, opts metav1.DeleteOpti
 func (f *vfFIPs) Get(ctx context.Context, name string, opts metav1.GetOptions) (*v1alpha1.FloatingIP, error) {
 	defer f.Store.after("get", name)
 	if err := f.Store.fault("get", name); err != nil {
-		return nil, err
+		return &v1alpha1.FloatingIP{}, err
 	}
 	f.Store.Mu.Lock()
 	defer f.Store.Mu.Unlock()
 	obj, ok := f.Store.Objs[name]
 	if !ok {
-		return nil, apierrors.NewNotFound(vfGR, name)
+		return &v1alpha1.FloatingIP{}, apierrors.NewNotFound(vfGR, name)
 	}
 	return vfCopy(obj), nil
 }
@@ -182,7 +182,7 @@ func (f *vfFIPs) Get(ctx context.Context, name string, opts metav1.GetOptions) (
 func (f *vfFIPs) List(ctx context.Context, opts metav1.ListOptions) (*v1alpha1.FloatingIPList, error) {
 	defer f.Store.after("list", "")
 	if err := f.Store.fault("list", ""); err != nil {
-		return nil, err
+		return &v1alpha1.FloatingIPList{}, err
 	}
 	f.Store.Mu.Lock()
 	defer f.Store.Mu.Unlock()
